@@ -126,6 +126,132 @@ def check_job(job):
     return out
 
 
+# ------------------------------------------------------------------ TRACE: recorded call sequences
+class Recorder(object):
+    """wrappers around the library functions the workflow calls; they record and delegate"""
+
+    def __init__(self, inst, fxns):
+        self.calls = []
+        self.inst = inst
+        self.spec = xw.INSTR[inst]
+        self.allfl = self.spec['fl'] + self.spec['extra']
+        self.saved = {}
+        self.fxns = fxns
+        self.row_fraction = None
+
+    def chan_args(self, ch):
+        if list(ch) == list(self.spec['sc']) if isinstance(ch, (list, tuple)) else False:
+            return ['scatter']
+        if isinstance(ch, str) and ch in self.allfl:
+            return ['fl', self.allfl.index(ch) + 1]
+        return ['other', repr(ch)]
+
+    def __enter__(self):
+        import FlowCal.transform as T
+        import FlowCal.gate as G
+        self.saved = {'to_rfi': T.to_rfi, 'start_end': G.start_end, 'high_low': G.high_low, 'density2d': G.density2d}
+        rec = self
+
+        def to_rfi(data, channels=None, *a, **k):
+            rec.calls.append(['to_rfi', rec.chan_args(channels) + (['with-overrides'] if a or k else [])])
+            return rec.saved['to_rfi'](data, channels, *a, **k)
+
+        def start_end(data, num_start=250, num_end=100, full_output=False):
+            rec.calls.append(['start_end', [num_start, num_end]])
+            return rec.saved['start_end'](data, num_start=num_start, num_end=num_end, full_output=full_output)
+
+        def high_low(data, channels=None, high=None, low=None, full_output=False):
+            ok = high is None and low is None and isinstance(channels, list) and channels[:2] == rec.spec['sc'] and \
+                channels[2:] == rec.reported
+            rec.calls.append(['high_low', ['scatter+reported'] if ok else ['other', repr(channels), repr(high), repr(low)]])
+            return rec.saved['high_low'](data, channels, high, low, full_output)
+
+        def density2d(data, channels=[0, 1], bins=1024, gate_fraction=0.65, xscale='logicle', yscale='logicle', sigma=10.0,
+                      bin_mask=None, full_output=False):
+            ok = list(channels) == rec.spec['sc'] and bins == 1024 and sigma == 10.0 and bin_mask is None
+            rec.calls.append(['density2d', ['scatter' if ok else 'other:' + repr(channels),
+                                            'row-fraction' if gate_fraction == rec.row_fraction else 'other-fraction:%r' % gate_fraction,
+                                            xscale if xscale == yscale else xscale + '/' + yscale]])
+            return rec.saved['density2d'](data, channels=channels, bins=bins, gate_fraction=gate_fraction, xscale=xscale,
+                                          yscale=yscale, sigma=sigma, bin_mask=bin_mask, full_output=full_output)
+        T.to_rfi, G.start_end, G.high_low, G.density2d = to_rfi, start_end, high_low, density2d
+        self.wrapped = {}
+        for k, f in self.fxns.items():
+            if f is None:
+                self.wrapped[k] = None
+            else:
+                def w(data, channels, _f=f):
+                    rec.calls.append(['to_mef', rec.chan_args(channels)])
+                    return _f(data, channels)
+                self.wrapped[k] = w
+        return self
+
+    def __exit__(self, *a):
+        import FlowCal.transform as T
+        import FlowCal.gate as G
+        T.to_rfi, G.start_end, G.high_low, G.density2d = (self.saved['to_rfi'], self.saved['start_end'], self.saved['high_low'],
+                                                          self.saved['density2d'])
+
+
+def trace_job(job):
+    idx, r, inst = job
+    bt, bs, fx, mo = W.beads('none' if r['beads'] != 'failed' else 'missing', inst)
+    t = W.samples_table([r], inst=inst, variant=idx % 4)
+    with Recorder(inst, fx) as rec:
+        rec.row_fraction = t.loc['S1', 'Gate Fraction']
+        rec.reported = [rec.allfl[j] for j, u in enumerate(r['units']) if u != 'empty']
+        try:
+            with warnings.catch_warnings():
+                warnings.simplefilter('ignore')
+                res = FlowCal.excel_ui.process_samples_table(t, W.instruments, mef_transform_fxns=rec.wrapped, beads_table=bt,
+                                                             base_dir=W.dir, verbose=False, plot=False)
+            k = 'err' if isinstance(res['S1'], Exception) else 'ok'
+        except Exception as e:  # noqa
+            k = 'aborted:' + type(e).__name__
+    return {'file': r['file'], 'frac': r['frac'], 'units': r['units'], 'beads': r['beads'], 'k': k, 'calls': rec.calls}
+
+
+def trace_part(chk):
+    import re
+    res = tlc.require_ok(tlc.run_tlc('MC_ExcelUI', 'SPECIFICATION Spec\nCONSTANTS RowKinds <- AllRows\nMaxRows = 1\nINVARIANT Isolation\n',
+                                     dump=True), 'MC_ExcelUI rows')
+    rows = [st['table'][0] for st in res.dump_states() if st['pc'] == 'Return' and len(st['table']) == 1]
+    rows.sort(key=lambda r: json.dumps(r, sort_keys=True))
+    W.beads('missing', 'A')
+    jobs = [(i, r, 'A') for i, r in enumerate(rows)] + [(i, r, 'B') for i, r in enumerate(rows) if r['beads'] == 'ok' and i % 2 == 0]
+    with mp.get_context('fork').Pool(min(16, os.cpu_count() or 1)) as pool:
+        recs = pool.map(trace_job, jobs, chunksize=1)
+    ctl = None
+    for r in recs:
+        if r['k'] == 'ok' and len(r['calls']) >= 4:
+            ctl = json.loads(json.dumps(r))
+            ctl['calls'] = [c for c in ctl['calls'] if c[0] != 'start_end']        # a dropped step
+            break
+    if ctl is None:
+        raise tlc.MachineryError('C10 trace: no healthy row recorded')
+    recs.append(ctl)
+    d = tlc.scratch('c10t_')
+    tf = os.path.join(d, 'trace.ndjson')
+    with open(tf, 'w') as f:
+        for r in recs:
+            f.write(json.dumps(r) + '\n')
+    out = tlc.run_tlc('Trace_C10', 'SPECIFICATION TSpec\nCONSTANTS RowKinds <- SmallRows\nMaxRows = 0\nPOSTCONDITION AllConsumed\n',
+                      workers=1, env={'TRACE_FILE': tf})
+    if not out.ok:
+        raise tlc.MachineryError('Trace_C10 failed: ' + (out.error_text or out.stdout[-2000:]))
+    chk.add_tlc(out, 'Trace_C10')
+    rejects = {int(m.group(1)): m.group(2) for m in re.finditer(r'<<"REJECT", (\d+), "([^"]+)">>', out.stdout)}
+    chk.negative_control(len(recs) in rejects, 'Trace_C10 accepted a call sequence without the trimming step')
+    rejects.pop(len(recs), None)
+    for i, (r, job) in enumerate(zip(recs[:-1], jobs), 1):
+        chk.case(('trace', job[2], json.dumps(job[1], sort_keys=True)), nontrivial=r['k'] == 'ok',
+                 sample={'row': job[1], 'recorded_calls': r['calls']} if i == 3 else None)
+        chk.traces += 1
+        if i in rejects:
+            chk.violation('C10/trace/' + rejects[i].replace('C10.', ''), {'row': job[1], 'instrument': job[2]}, {'verdict': rejects[i]},
+                          {'k': r['k'], 'calls': r['calls']}, direction='trace')
+
+
 def main(chk, replay=None):
     global W, STATCOLS
     chk.rule = ('GEN: healthy row kinds of ExcelUI.tla (14 unit combinations x integer/float) on two instruments, four spellings '
@@ -169,6 +295,7 @@ def main(chk, replay=None):
         chk.traces += 1
         for lab, r in o['labels']:
             chk.violation('C10/' + lab, {'table': rows, 'row': r, 'instrument': inst, 'fractions': fracs}, [e['calls'] for e in exp], o['obs'])
+    trace_part(chk)
     # negative control: a different trim count must be noticed by the comparison
     rows, exp = [t for t in tables if len(t[0]) == 1 and t[0][0]['file'] == 'ok-int'][0]
     t = W.samples_table(rows)
